@@ -17,6 +17,8 @@ From I18n Require Import Lib.Outcome Model.IntExpr Model.PluralForms Model.Tags 
 From I18n Require Import Lib.Outcome Model.IntExpr Model.PluralForms Lib.CFmtSyntax Model.FmtC.
 From I18n Require Import Lib.Outcome Model.IntExpr Model.PluralForms Model.Tags Generated.UcdPrintable
   Model.PoUnescape Model.PoParser Model.PoLexer.
+From I18n Require Import Lib.Outcome Model.IntExpr Model.PluralForms
+  Model.FmtPerlBrace Model.FmtPython Model.FmtPyBrace Model.FmtInstances Spec.CPyPercent Spec.CPyFormat Generated.Ucd.
 Extraction Language OCaml.
 Extraction "model.ml"
   IntExpr.parse_string IntExpr.pyeval IntExpr.codomain IntExpr.period
@@ -43,4 +45,7 @@ Extraction "model.ml"
   FmtC.fmtc_tokens FmtC.fmtc_parse FmtC.fmtc_glic
   PoUnescape.unescape PoParser.lex_line PoParser.parse_lines PoParser.py_isspace
   PoLexer.detect_encoding PoLexer.codecs_open_text PoLexer.load_po PoLexer.pofile
+  FmtInstances.perl_parse_ucd FmtPerlBrace.names_of
+  FmtInstances.fmtpy_parse_gen CPyPercent.cpy_events CPyPercent.cpy_syntax_error CPyPercent.plain_percents CPyPercent.cpy_format
+  FmtInstances.pybrace_parse_gen CPyFormat.cpy_markup CPyFormat.cpy_format Ucd.re_d_value
   .
